@@ -46,6 +46,13 @@ class C14(Prop):
                 fb = G.enc(*f[:5], bytes(f[5]))
                 noise = noise + fb[rng.randrange(1, len(fb)):]
             cases.append({"kind": mode + ("+interior68" if 0x68 in self._tail(f) else ""), "noise": list(noise), "f": f, "k": k})
+        # runs of frames at and next to the maximum size (1000 bytes in total)
+        for plen in (990, 989, 988):
+            for _ in range(2 if tier == "quick" else 10):
+                f, _ = G.rand_frame(rng, kinds, own=True, known_sender=True, known_kind=True, maxlen=4)
+                f = [f[0], f[1], f[2], f[3], f[4], [b if b != 0x68 else 0x67 for b in G.rand_payload(rng, plen)]]
+                noise = G.noise(rng, rng.choice([0, 5, 300]), rng.choice(["uniform", "dense68"]))
+                cases.append({"kind": "max-size", "noise": list(noise), "f": f, "k": 3 + rng.choice([0, 1])})
         for _ in range(n // 3):
             mode = rng.choice(["uniform", "dense68", "header"])
             cases.append({"kind": "noise-only:" + mode, "noise": list(G.noise(rng, rng.randrange(0, 300), mode)), "f": None, "k": 0})
